@@ -132,15 +132,15 @@ def toplevel_faults():
            "Die Funktion fgeheim gibt eine Zahl zurück, macht:\n\tGib 1 zurück.\nUnd kann so benutzt werden:\n\t\"rufe fgeheim\"\n"
            "Die öffentliche Funktion foffen gibt eine Zahl zurück, macht:\n\tGib 1 zurück.\nUnd kann so benutzt werden:\n\t\"rufe foffen\"\n"
            "Wir nennen die Kombination aus\n\tder Zahl px mit Standardwert 0,\neinen Verborgen.\n"
-           "Wir nennen die öffentliche Kombination aus\n\tder öffentlichen Zahl sichtbar mit Standardwert 0,\n\tder Zahl versteckt mit Standardwert 0,\neinen Offen, und erstellen sie so:\n\t\"ein Offen\"\n"
-           "Wir nennen eine Zahl auch eine Geheimzahl.\nWir nennen öffentlich eine Zahl auch eine Offenzahl.\n")
+           "Wir nennen die öffentliche Kombination aus\n\tder öffentlichen Zahl gezeigt mit Standardwert 0,\n\tder Zahl versteckt mit Standardwert 0,\neinen Offen, und erstellen sie so:\n\t\"ein Offen\"\n"
+           "Wir nennen eine Zahl auch eine Geheimzahl.\nWir nennen eine Zahl öffentlich auch eine Offenzahl.\n")
     files = {"modul%N%.ddp": mod}
     imp = 'Binde "modul%N%" ein.\n'
     out.append(("private variable of import", imp + "Die Zahl u%N% ist geheim.\n", imp + "Die Zahl u%N% ist offen.\n", files))
     out.append(("private constant of import", imp + "Die Zahl u%N% ist kgeheim.\n", imp + "Die Zahl u%N% ist koffen.\n", files))
     out.append(("private function of import", imp + "Die Zahl u%N% ist rufe fgeheim.\n", imp + "Die Zahl u%N% ist rufe foffen.\n", files))
     out.append(("private type of import", imp + "Der Verborgen u%N% ist der Standardwert von einem Verborgen.\n", imp + "Der Offen u%N% ist der Standardwert von einem Offen.\n", files))
-    out.append(("private field of import", imp + "Der Offen u%N% ist ein Offen.\nDie Zahl w%N% ist (versteckt von u%N%).\n", imp + "Der Offen u%N% ist ein Offen.\nDie Zahl w%N% ist (sichtbar von u%N%).\n", files))
+    out.append(("private field of import", imp + "Der Offen u%N% ist ein Offen.\nDie Zahl w%N% ist (versteckt von u%N%).\n", imp + "Der Offen u%N% ist ein Offen.\nDie Zahl w%N% ist (gezeigt von u%N%).\n", files))
     out.append(("selective import of private name", 'Binde geheim aus "modul%N%" ein.\n', 'Binde offen aus "modul%N%" ein.\n', files))
     out.append(("selective import: unlisted name", 'Binde offen aus "modul%N%" ein.\nDie Zahl u%N% ist koffen.\n', 'Binde offen und koffen aus "modul%N%" ein.\nDie Zahl u%N% ist koffen.\n', files))
     out.append(("selective import of missing name", 'Binde gibtsnicht aus "modul%N%" ein.\n', 'Binde offen aus "modul%N%" ein.\n', files))
